@@ -100,6 +100,9 @@ class MasterTruth:
         self.admin_down = set()   # servers an admin 'down' event put down
         #                           (and no later event / presence change
         #                           brought back)
+        self.told_gone = set()    # servers the master was told are gone (a
+        #                           handled snapshot without them) and has
+        #                           not been told anything else about since
         self.absent = {}          # server -> [tmin, tmax]: the master handled
         #                           a presence snapshot without the server
         #                           while its presence node was gone
@@ -552,6 +555,7 @@ class World(masterloop.LoopWorld):
                 truth.groups[name] = data.get('count', 0)
         truth.view = set(zk.children(z.SERVER_PRESENCE) or [])
         truth.absent = {}
+        truth.told_gone = set()
         truth.seen_gone = set()
         truth.blacklist = list(self._zk_obj(z.BLACKEDOUT_APPS) or [])
         truth.admin_down = set()
@@ -573,8 +577,13 @@ class World(masterloop.LoopWorld):
             # that are in the snapshot; the model's state is what it recorded
             # (a server that never had a state recorded is held as down:
             # adjust_server_state defaults to it and records only changes)
+            # ... and a held server the master was told is gone (it handled
+            # a snapshot without it, nothing changed its state since) is
+            # held as down whatever the model recorded
             return sorted(name for name in self.truth.srv
-                          if self._stored_state(name) in ('down', None))
+                          if self._stored_state(name) in ('down', None) or
+                          (name in self.truth.told_gone and
+                           name in self.held_servers))
         if path != z.EVENTS:
             return None
         import re as _re
@@ -593,6 +602,7 @@ class World(masterloop.LoopWorld):
             for name in events or []:
                 if name in children and name in truth.srv:
                     self._truth_server(name)     # reloaded on coming up
+                    truth.told_gone.discard(name)
                     # ... and its state set by whether its presence node
                     # exists NOW, not by the (possibly stale) snapshot
                     if self.zk.nodes.get(
@@ -609,8 +619,10 @@ class World(masterloop.LoopWorld):
                 if name in children or self.zk.nodes.get(
                         z.path.server_presence(name)) is not None:
                     truth.absent.pop(name, None)
-                elif name not in truth.absent:
-                    truth.absent[name] = [self._proc_t0, now]
+                else:
+                    truth.told_gone.add(name)
+                    if name not in truth.absent:
+                        truth.absent[name] = [self._proc_t0, now]
         elif path == z.SCHEDULED:
             target = set(children)
             for name in sorted(set(truth.apps) - target):
@@ -650,6 +662,7 @@ class World(masterloop.LoopWorld):
                         else:
                             self.held_servers.discard(name)
                         truth.absent.pop(name, None)
+                        truth.told_gone.discard(name)
                         truth.seen_gone.discard(name)
                         parent = (self._zk_obj(z.path.server(name)) or
                                   {}).get('parent')
@@ -661,6 +674,7 @@ class World(masterloop.LoopWorld):
                             self.untold_servers.add(name)
                 elif resource in ('cell', 'buckets'):
                     truth.absent.clear()
+                    truth.told_gone.clear()
                     truth.seen_gone.clear()
                     if resource == 'buckets':
                         self.told_buckets = set(
@@ -674,6 +688,7 @@ class World(masterloop.LoopWorld):
                         # bounds on when the server went down start afresh
                         truth.down.pop(name, None)
                         truth.absent.pop(name, None)
+                        truth.told_gone.discard(name)
                         truth.seen_gone.discard(name)
                         if name not in truth.srv:
                             continue
@@ -859,7 +874,13 @@ class World(masterloop.LoopWorld):
         data = {'parent': op['parent'], 'partition': op['partition'],
                 'memory': op['memory'], 'cpu': op['cpu'], 'disk': op['disk'],
                 'traits': op['traits'], 'up_since': op['up_since']}
-        if zkutils.put(self.admin, node, data, check_content=True):
+        if op.get('quiet'):
+            # a restarting node rewrites its own record before it registers
+            # (presence.register_server): no event names it
+            if zkutils.put(self.admin, node, data, check_content=True):
+                self.faults['server_rewritten_by_node'] = \
+                    self.faults.get('server_rewritten_by_node', 0) + 1
+        elif zkutils.put(self.admin, node, data, check_content=True):
             masterapi.create_event(self.admin, 0, 'servers', [name])
             self.faults['server_changed'] += 1
         self.dirty_since_cycle = True
@@ -2401,6 +2422,46 @@ class Generator:
                 'disk': old.get('disk'), 'traits': traits,
                 'up_since': old.get('up_since')}
 
+    def g_frozen_node_restart(self, world):
+        """A frozen server's node restarts: presence goes, the node rewrites
+        its own record with one trait fewer (no event), presence comes back,
+        the server is unfrozen; then instances that require exactly that
+        trait arrive."""
+        cands = []
+        for name in self._servers(world):
+            data = world._zk_obj(z.path.server(name)) or {}
+            if data.get('parent') and data.get('traits') and \
+                    world.zk.nodes.get(z.path.server_presence(name)):
+                cands.append((name, data))
+        if not cands:
+            return None
+        name, old = self.rng.choice(cands)
+        traits = list(old['traits'])
+        lost = self.rng.choice(traits)
+        traits.remove(lost)
+        proid = self.rng.choice(self.config['proids'])
+        manifest = {'memory': '256M', 'cpu': '10%', 'disk': '256M',
+                    'affinity': '%s.job' % proid, 'traits': [lost]}
+        limits = self.config['aff_limits'].get(manifest['affinity'])
+        if limits:
+            manifest['affinity_limits'] = limits
+        self.follow.extend([
+            {'op': 'drain'}, {'op': 'master_cycle'},
+            {'op': 'presence_down', 'name': name}, {'op': 'drain'},
+            {'op': 'srv_set', 'quiet': True, 'name': name,
+             'parent': old['parent'],
+             'partition': old.get('partition') or '_default',
+             'memory': old.get('memory'), 'cpu': old.get('cpu'),
+             'disk': old.get('disk'), 'traits': traits,
+             'up_since': old.get('up_since')},
+            {'op': 'presence_up', 'name': name}, {'op': 'drain'},
+            {'op': 'srv_state', 'name': name, 'state': 'up'},
+            {'op': 'drain'}, {'op': 'master_cycle'},
+            {'op': 'app_create', 'app_id': '%s.job' % proid,
+             'manifest': manifest, 'count': self.rng.randint(2, 5)},
+            {'op': 'drain'}, {'op': 'master_cycle'}])
+        return {'op': 'srv_state', 'name': name, 'state': 'frozen'}
+
     def g_stale_presence_snapshot(self, world):
         """A server the master holds as down registers again, the watch
         fires, and the server is gone again before the master gets to the
@@ -2856,7 +2917,7 @@ OP_WEIGHTS = [
     ('lease_squeeze_failover', 3), ('flap_then_place', 5),
     ('resize_mixed', 3), ('frozen_then_presence_lost', 3),
     ('trait_lost_then_place', 3), ('stale_presence_snapshot', 3),
-    ('overlapping_blackouts', 3),
+    ('overlapping_blackouts', 3), ('frozen_node_restart', 3),
 ]
 
 
